@@ -616,7 +616,12 @@ def run_test(src, pkgpath, repo, timeout=120):
 
 def verdict(rc, out, ob):
     if "GOVC-REPLAY panic" in out:
-        return True, "reproduced: " + [l for l in out.splitlines() if "GOVC-REPLAY panic" in l][0]
+        line = [l for l in out.splitlines() if "GOVC-REPLAY panic" in l][0]
+        if ob is not None and ob.kind == "safety":
+            return True, "reproduced: " + line
+        # a panic of the harness-built call is only a reproduction of a panic-freedom obligation; for any other
+        # obligation it means the harness could not build inputs that satisfy the function's wiring assumptions
+        return False, "inconclusive: the replayed call panicked before the clause could be evaluated (" + line + ")"
     if "GOVC-REPLAY allocation-exceeds-bound" in out:
         return True, "reproduced: " + [l for l in out.splitlines() if "allocated-bytes" in l][0] + " for an input of a few bytes"
     if "GOVC-REPLAY clause-holds: false" in out:
